@@ -54,6 +54,8 @@ def host_db(rng, origin, seed):
     for t in doc.tables:
         if not t.indexes:
             t.indexes.append(am.Index([('col', t.columns[0].name)]))
+    if rng.random() < 0.5:
+        gen.same_bare_names(doc, rng)       # tables 0 and 1 share their bare name in different schemas
     for t in doc.tables:
         if len(t.columns) < 2:
             t.columns.append(am.Column(f'pad{len(t.columns)}{t.name}', am.ColType('plain', 'int')))
@@ -164,6 +166,10 @@ def scenarios(sh, rng, mk, hid):
             for how in ('built', 'edited'):
                 db, case = fresh()
                 t1, t2 = rng.sample(db.tables, 2)
+                twins = [t for t in db.tables if t.name == db.tables[0].name]
+                if len(twins) >= 2 and rng.random() < 0.6:
+                    t1, t2 = twins[0], twins[1]        # same bare name, different schema
+                    sh.count('class.mixed_side_between_same_named_tables')
                 a, b = [t1.columns[0], t1.columns[1]], [t2.columns[0], t2.columns[1]]
                 if how == 'built':
                     mixed = [t1.columns[0], t2.columns[1]]
